@@ -46,6 +46,37 @@ PROPS["C08"] = dict(
     assumptions=COMMON_ASSUME + ["reference interpreter encodes the documented semantics (README table, config comments)"],
 )
 
+PROPS["C11"] = dict(
+    title="fragmentation / reassembly exactness",
+    level="exploration",
+    technique="runtime monitor: real make_fragments -> permuted/duplicated/interleaved/adversarial feeds -> real reassemble, outputs compared byte-for-byte with the originals and with a reference reassembler; pending-state hook H2",
+    text="Splits generated frames (real Frame and a raw-bytes Fragmentable) with the real make_fragments over an (size x MTU) grid, checks the fragment contract, feeds every permutation (<=6 fragments) and sampled permutations with duplicates and 2-4 interleaved frames to the real reassemble and requires each original exactly once and nothing else; adversarial header feeds are compared with a reference reassembler; timer expiry, id reuse after completion and id wrap-around are driven with real short timeouts and judged only when measured times are clearly on the intended side.",
+    note="trusted: harness reference reassembler; real-time sleeps for expiry (skipped => inconclusive if the measured time is ambiguous)",
+    design_ref="DESIGN.md 3 C11",
+    steps=[inproc("c11")],
+    assumptions=COMMON_ASSUME,
+)
+PROPS["C12"] = dict(
+    title="stream decoders insensitive to segmentation",
+    level="exploration",
+    technique="runtime differential monitor: real decoders on scripted AsyncRead with chosen cut sets vs. the unsegmented run and the generator's intended message; truncation sweep",
+    text="Drives the real HTTP head, SOCKS4/4a/5 request (incl. negotiation and user/pass), SOCKS reply and RPFM stream-frame decoders, and the whole CONNECT handshake followed by the real relay, over a scripted stream whose segment boundaries are chosen: all 2^(n-1) cut sets for messages up to 14 bytes, every single cut, sampled pairs, one-byte-at-a-time and random sets beyond, each with and without Pending between segments and with trailing payload; requires identical parsed message, identical left-over bytes and identical bytes written back. Every strict prefix must be rejected (or end cleanly for the frame reader).",
+    note="trusted: message generators' rendering of the intended message; an HTTP head missing only the final LF is counted, not flagged (complete message, neither partial nor fabricated)",
+    design_ref="DESIGN.md 3 C12",
+    steps=[inproc("c12")],
+    assumptions=COMMON_ASSUME,
+)
+PROPS["C05"] = dict(
+    title="no remote input can crash or wedge the proxy",
+    level="exploration",
+    technique="panic/abort sensors (catch_unwind lane, process supervisor) around every decoder and the live process under hostile generated traffic, with liveness probes; ASan and Miri lanes in thorough",
+    text="In-process: every decoder (HTTP, SOCKS4/5, SOCKS-UDP, RPFM buffer and stream frames, fragment reassembly incl. the exhaustive (total,seq,len) header grid and hostile MTUs, h11c_connect against hostile upstream replies, h11c_handshake against hostile requests) is run on mutated-valid, truncated, oversized and random inputs under catch_unwind with a poll budget; any panic is a violation because the shipped profile aborts. End-to-end: hostile clients and upstreams against the shipped binary under a supervisor (see e2e steps).",
+    note="trusted: mutation operators reach the interesting inputs only by sampling; memory exhaustion is out of scope of the property",
+    design_ref="DESIGN.md 3 C05",
+    steps=[inproc("c05")],
+    assumptions=COMMON_ASSUME,
+)
+
 NOT_YET = {}
 
 
